@@ -108,6 +108,8 @@ def gamma_value(r):
         return r[1].encode()
     if k == "list":
         return [1, 2]
+    if k == "tuple":
+        return (1, 2)
     if k == "dict":
         return {"a": 1}
     if k == "dec":
@@ -305,12 +307,15 @@ def gen_temporal_column(rng):
     if kind in ("datetime", "datetimetz"):
         pool = ["2020-01-01T00:00:00", "2021-05-06T00:00:00", "1999-12-31T00:00:00"]
         if rng.random() < 0.5:
-            pool += ["2020-01-01T10:30:00", "2020-01-01T00:00:00.000001"]
+            pool += ["2020-01-01T10:30:00", "2020-01-01T00:00:00.000001", "2020-01-01T00:00:00.250"]
+        if kind == "datetimetz" and rng.random() < 0.5:
+            # days whose local midnight does not exist / is ambiguous in zones that switch at midnight
+            pool += ["2018-11-04T15:00:00", "2019-03-31T12:00:00", "2018-11-04T03:00:00"]
         vals = [["dt", rng.choice(pool)] for _ in range(n)]
         if n >= 6 and rng.random() < 0.3:
             vals[rng.randrange(5, n)] = ["dt", "2020-03-03T03:03:03"]
         vals = with_nulls(rng, vals, [["NaT"]])
-        dtype = "datetime64[ns]" if kind == "datetime" else ["datetimetz", rng.choice(["UTC", "Europe/Amsterdam"])]
+        dtype = "datetime64[ns]" if kind == "datetime" else ["datetimetz", rng.choice(["UTC", "Europe/Amsterdam", "America/Sao_Paulo", "Asia/Beirut", "America/Havana"])]
         if kind == "datetime" and rng.random() < 0.3:
             dtype = "datetime64[s]"
     elif kind == "timedelta":
@@ -352,7 +357,71 @@ def gen_categorical_column(rng):
     return idx_name(rng, {"values": vals, "dtype": ["category", rng.random() < 0.4], "stream": "categorical:" + k})
 
 
+TRICKY = [["bytes", "raw"], ["list"], ["dict"], ["tuple"], ["int", 1], ["float", 1.5], ["bool", True], ["dt", "2020-01-01T10:00:00"],
+          ["date", "2020-01-01"], ["time", "10:00:00"], ["spliturl", "http://a.b/c"], ["url", "nothing"], ["ppath", "rel/b"],
+          ["path", "missing"], ["path", "rel"], ["path", "exists"], ["str", "a"], ["str", ""], ["npint", 1], ["dec", "1"],
+          ["uuid", "00000000-0000-0000-0000-000000000001"], ["ip", "::1"], ["email", "", ""], ["geom", "POINT EMPTY"],
+          ["complex", 1, 0], ["td", 5], ["ts", "2020-01-01 05:00"]]
+
+
+def gen_late_deviant(rng):
+    """6..12 rows, homogeneous except for ONE different element placed after the fifth row: the code peeks at
+    `values[0:5]` / `head(1)`, so a defect behind such a peek is invisible to short columns and to early deviants"""
+    n = rng.randint(6, 12)
+    if rng.random() < 0.55:
+        k = rng.choice(sorted(set(v[0] for v in OBJ_POOL)))
+        pool = [v for v in OBJ_POOL if v[0] == k]
+        dtype = "object"
+    else:
+        fam = rng.choice(list(STR_POOLS))
+        pool = [["str", x] for x in STR_POOLS[fam][:5]]
+        dtype = rng.choice(["object", "object", "infer"])
+    vals = [rng.choice(pool) for _ in range(n)]
+    dev = rng.choice(TRICKY + [["str", rng.choice(STR_POOLS[rng.choice(list(STR_POOLS))])]])
+    vals[rng.randrange(5, n)] = dev
+    if dev[0] != "str":
+        dtype = "object"
+    if rng.random() < 0.3:
+        vals = with_nulls(rng, vals, NULLS_OBJ[:2], rng.choice(["lead", "mid", "trail"]))
+    return idx_name(rng, {"values": vals, "dtype": dtype, "stream": "late-deviant"})
+
+
+def gen_long_column(rng):
+    """>= 1000 rows: the engine has a sampling code path that only long series can reach.  Mostly-missing columns with a
+    few values, a homogeneous majority with rare contaminants, and plain long homogeneous columns."""
+    n = rng.choice([1000, 1001, 1200, 2500])
+    kind = rng.choice(["sparse-values", "contaminated", "homogeneous"])
+    fam = rng.choice(["int", "float", "bool", "datetime", "url", "ip", "uuid", "text", "geom"])
+    pool = [["str", v] for v in STR_POOLS[fam][:4]]
+    dtype = rng.choice(["object", "str"])
+    null = ["none"] if dtype == "object" else ["nan"]
+    if kind == "sparse-values":
+        vals = [null] * n
+        for _ in range(rng.choice([1, 2, 3])):
+            vals[rng.randrange(n)] = rng.choice(pool)
+        if rng.random() < 0.3:
+            dtype = "object"
+            vals = [["none"]] * n
+            for _ in range(rng.choice([1, 2])):
+                vals[rng.randrange(n)] = rng.choice([["date", "2020-01-01"], ["time", "10:00:00"], ["ip", "127.0.0.1"],
+                                                    ["geom", "POINT (1 2)"], ["bool", True], ["ppath", "/a/b"]])
+    elif kind == "contaminated":
+        base = rng.choice(pool)
+        vals = [base] * n
+        other = rng.choice(list(STR_POOLS))
+        for _ in range(rng.choice([1, 2])):
+            vals[rng.randrange(n)] = ["str", rng.choice(STR_POOLS[other])]
+    else:
+        vals = [rng.choice(pool[:2]) for _ in range(n)]
+        if rng.random() < 0.3:
+            dtype = "float64"
+            vals = [["float", float(rng.choice([1, 2, 3]))] for _ in range(n)]
+            if rng.random() < 0.5:
+                vals[rng.randrange(n)] = ["float", 1.5]
+    return {"values": vals, "dtype": dtype, "index": "default", "name": None, "stream": "long:" + kind}
+
+
 def gen_column(rng):
-    f = rng.choices([gen_string_column, gen_numeric_column, gen_temporal_column, gen_object_column, gen_categorical_column],
-                    [5, 3, 2, 4, 1])[0]
+    f = rng.choices([gen_string_column, gen_numeric_column, gen_temporal_column, gen_object_column, gen_categorical_column,
+                     gen_late_deviant], [5, 3, 2, 4, 1, 3])[0]
     return f(rng)
